@@ -470,7 +470,10 @@ def main(tier):
     groups = [{"env": e, "indices": [i for i in range(n_hist) if i % len(GROUP_ENVS) == g]} for g, e in enumerate(GROUP_ENVS)]
     groups = [g for g in groups if g["indices"]]
     cfg = {"pool_size": pool_size, "tier": tier, "wall_per_run": 600}
-    log_dir = os.path.join(VERIF, "replays", "logs")
+    log_dir = os.path.join(VERIF, "replays", "logs", ID)
+    import shutil
+
+    shutil.rmtree(log_dir, ignore_errors=True)
     os.makedirs(log_dir, exist_ok=True)
     results, errors, skipped = driver.run_batch(MODULE, groups, master, cfg, n_workers=14, chunk=1 if tier == "quick" else 4, wall_per_chunk=1800, log_dir=log_dir)
     for t in threads:
